@@ -4,8 +4,9 @@ Model of the Python encoder (`FusionEngineEncoder.encode_message`, `MessageHeade
 look at a whole message (`CalculateCRC(const void*)` in crc.cc, `IsValid()` in crc.h, the CRC
 comparison of `FusionEngineFramer::OnByte`).  Core Lean only.
 
-Python integers are `Nat` here (the harness also exercises negative arguments: `struct.pack`
-rejects them like any other out-of-range value, which is the `.structError` path).
+Python integers are `Nat` in `encodeMessage`; a caller's source identifier is an `Int` in `EncCall`
+(`struct.pack` rejects a negative one like any other out-of-range value, the `.structError` path of
+`encodeCall`).
 -/
 import FeVerif.Model.Header
 
@@ -78,19 +79,36 @@ def encodeMessage (e : Encoder) (type version source : Nat) (payload : Option By
     | .error er => (.error er, e)
     | .ok out => (.ok out, ⟨(e.sequenceNumber + 1) % 4294967296⟩)
 
-/-- One call of a session. -/
+/-- One call of a history.  `source = none`: the call omits the `source_identifier` argument (its documented
+default is 0); `some s`: the caller's integer, negative values included. -/
 structure EncCall where
   type : Nat
   version : Nat
-  source : Nat
+  source : Option Int
   payload : Option Bytes
+
+/-- The source identifier a call asks for: the argument of THAT call, 0 when it is omitted.  Nothing an earlier
+call was given enters here - the encoder object keeps no source identifier. -/
+def EncCall.sourceArg (c : EncCall) : Int := c.source.getD 0
+
+/-- One `encode_message` call as written by a caller.  `message.pack()` runs before the header is serialized, so a
+payload that raises is reported first; a negative source identifier is refused by `struct.pack` like any other
+value outside the 32-bit field. -/
+def encodeCall (e : Encoder) (c : EncCall) : Except PyErr Bytes × Encoder :=
+  match c.payload, c.sourceArg with
+  | none, _ => (.error .packError, e)
+  | some p, .ofNat s => encodeMessage e c.type c.version s (some p)
+  | some _, .negSucc _ => (.error .structError, e)
 
 /-- A sequence of `encode_message` calls on one encoder: the results in call order. -/
 def encodeAll : Encoder → List EncCall → List (Except PyErr Bytes)
   | _, [] => []
-  | e, c :: cs =>
-    (encodeMessage e c.type c.version c.source c.payload).1 ::
-      encodeAll (encodeMessage e c.type c.version c.source c.payload).2 cs
+  | e, c :: cs => (encodeCall e c).1 :: encodeAll (encodeCall e c).2 cs
+
+/-- The encoder object after a history of calls. -/
+def encodeState : Encoder → List EncCall → Encoder
+  | e, [] => e
+  | e, c :: cs => encodeState (encodeCall e c).2 cs
 
 /-- The messages produced by one encoder. -/
 def okOutputs : List (Except PyErr Bytes) → List Bytes
